@@ -235,12 +235,11 @@ Variable out : nat.
 
 Hypothesis Hwf : wfb pm args = true.
 Hypothesis Hver : verify tyorder pm = [].
-Hypothesis Hord : incl (keys pm) tyorder.
 
 Lemma core_acyclic : acyclic (core_pm pm).
 Proof.
   apply (acyclic_core pm args Hwf).
-  apply (verify_acyclic_iff tyorder pm Hord); [rewrite Hver; discriminate|exact Hver].
+  apply (verify_acyclic_iff tyorder pm); [rewrite Hver; discriminate|exact Hver].
 Qed.
 
 Lemma init_is_s_init : init_state args = s_init (List.length args) args.
